@@ -25,7 +25,7 @@ type l2Prog struct {
 // l2Plan: corpus harnesses serving a property.
 func l2Plan(prop, tier string) []l2Prog {
 	var ps []l2Prog
-	srcOf := map[string]string{"f01": "f01", "f03": "f02", "f04": "f02", "f05": "f02", "f06": "f05", "f07": "f05", "f08": "f04",
+	srcOf := map[string]string{"f10": "f06", "f11": "f07", "f08n": "f04", "f01": "f01", "f03": "f02", "f04": "f02", "f05": "f02", "f06": "f05", "f07": "f05", "f08": "f04",
 		"p01": "f03", "p02": "f03", "p03": "f03", "p04": "f03", "p05": "f04", "p06": "f05", "p07": "f09"}
 	add := func(entry, name string, as, cs map[int]string) {
 		key := strings.TrimPrefix(entry, "verifHarness_")
@@ -109,6 +109,21 @@ func l2Plan(prop, tier string) []l2Prog {
 			map[int]string{1: "succeeds", 2: "every argument expression evaluated exactly once", 3: "source order", 4: "before the first element call", 5: "Concurrency argument reaches the scheduler", 6: "every element processed"},
 			map[int]string{1: "two elements"})
 	}
+	f10 := func() {
+		add("verifHarness_f10", "Flow10: gated task whose provider's task serial equals its predicate's serial (first flow of a file)",
+			map[int]string{1: "flow returns nil", 2: "Results equal the reference", 3: "predicate and ungated tasks exactly once", 4: "gated task runs when the predicate is true", 5: "predicate evaluated before its task", 6: "gated task not called when the predicate is false"},
+			map[int]string{1: "predicate true", 2: "predicate false"})
+	}
+	f11 := func() {
+		add("verifHarness_f11", "Flow11: predicate or gated task panics, also with a value of an uncomparable type",
+			map[int]string{1: "nil iff nothing panicked", 2: "errors.As yields a *cff.PanicError", 3: "Results untouched", 4: "result equals reference"},
+			map[int]string{1: "predicate panicked", 2: "task panicked", 3: "success through a true predicate"})
+	}
+	f08n := func() {
+		add("verifHarness_f08n", "Flow08 run twice with two outer EmitterStacks sharing one nested 3-emitter stack",
+			map[int]string{1: "first run succeeds", 2: "outer emitter A saw its own run", 3: "outer emitter B saw nothing of A's run", 4: "second run succeeds", 5: "A unaffected by B's run", 6: "B saw its own run", 7: "shared base saw both runs", 8: "task events delivered once to each outer emitter"},
+			map[int]string{1: "equal results"})
+	}
 	f02ok := func() {
 		add("verifHarness_f02_ok", "Flow02 (multi-output task, two Results, Invoke sink, Concurrency(2)), all tasks succeed",
 			map[int]string{1: "flow returns nil", 2: "both Results hold the reference values", 3: "every task exactly once", 4: "parameters are the providers' values", 5: "Concurrency(2) reaches the scheduler", 6: "one job per task"},
@@ -127,11 +142,14 @@ func l2Plan(prop, tier string) []l2Prog {
 		p06()
 	case "C18":
 		f08()
+		f08n()
 		p05()
 	case "C02":
 		f01ok()
 		f02ok()
+		f10()
 	case "C04":
+		f11()
 		f01fail()
 		f03()
 		f04()
@@ -153,6 +171,7 @@ func l2Plan(prop, tier string) []l2Prog {
 		f03()
 		f04()
 		f05()
+		f10()
 	}
 	return ps
 }
@@ -212,7 +231,7 @@ func l2SpecsMode(prop, tier, mode string, keep []string) ([]*eng.KernelSpec, *en
 	pkg := eng.CorpusMod + "/flows"
 	var specs []*eng.KernelSpec
 	for _, pr := range progs {
-		for pol, polName := range []string{"lowest-index-first", "highest-index-first"} {
+		for pol, polName := range []string{"lowest-index-first", "highest-index-first", "any admissible order (solver choice per step)"} {
 			specs = append(specs, &eng.KernelSpec{Prop: prop, Name: pr.name + " [job order: " + polName + "]", Fixed: map[int]int64{9000: int64(pol)}, PkgDir: filepath.Join(corpus.ModDir, "flows"), PkgPath: pkg,
 				Entry: pr.entry, Program: P, GenMode: mode, GenKeep: keep, Fuel: 3000000, MaxStack: 40, AssertNames: pr.assert, CoverNames: pr.cover,
 				Setup: func(k *eng.Kernel) { eng.InstallL2(k, pkg) }})
